@@ -9,6 +9,8 @@ Transcribed (snapshot ef0888e + the `fix:` commit recorded in findings/C02.txt):
 * `StartTask`: refuses a task without dbrps; `newFork` makes ONE edge and registers it under every key (appending the key to
   `taskToForkKeys[id]`, overwriting `forks[key][id]`); the edge becomes the input of the task's stream node (`et.start(ins)`),
   which is what `Edge.task` records; `tm.tasks[id] = et`.
+* `StartTask` can still fail after `newFork` (`TaskStore.LoadSnapshot` error): op `startfail`; the repaired code removes the fork again
+  (`startTaskFail`), the snapshot's did not (`startTaskFailOld`).
 * `StopTask`/`DeleteTask` → `stopTask`: nothing when the id is not executing; else `delete(tm.tasks,id)` and `delFork`, which walks
   `taskToForkKeys[id]`, closes the first edge it finds (once) and deletes the id from `forks[key]`; then forgets the key list.
 * `WritePoints`: empty retention policy ⇒ `DefaultRetentionPolicy`; every point becomes a PointMessage carrying (db, rp) and goes
@@ -140,6 +142,15 @@ def delFork (s : TM) (id : String) : TM :=
   let st := delForkLoop id (s.forkKeysOf id) (s.forks, s.closed, false)
   { s with forks := st.1, closed := st.2.1, forkKeysOf := upd s.forkKeysOf id [] }
 
+/-- `StartTask` when `TaskStore.LoadSnapshot` fails: that happens AFTER `newFork`; since the second `fix:` commit the fork is removed
+again before the error is returned. -/
+def startTaskFail (s : TM) (d : TaskDef) : TM :=
+  if d.dbrps.isEmpty then s else delFork (newFork s d).1 d.id
+
+/-- … as it was at the snapshot: the error return left the edge registered (nobody ever reads it). -/
+def startTaskFailOld (s : TM) (d : TaskDef) : TM :=
+  if d.dbrps.isEmpty then s else (newFork s d).1
+
 /-- `stopTask` (shared by `StopTask` and `DeleteTask`; the delete hooks of `DeleteTask` do not touch the routing). -/
 def stopTask (s : TM) (id : String) : TM :=
   match s.tasks id with
@@ -172,6 +183,7 @@ def writePointsWith (fp : TM → Point → TM) (s : TM) (db rp : String) (pts : 
 
 inductive Op where
   | start (d : TaskDef)
+  | startfail (d : TaskDef)        -- StartTask whose snapshot cannot be loaded: returns an error
   | stop (id : String)
   | delete (id : String)
   | write (db rp : String) (pts : List RawPoint)
@@ -179,6 +191,7 @@ deriving Repr, Inhabited
 
 def stepWith (fp : TM → Point → TM) (s : TM) : Op → TM
   | .start d => startTask s d
+  | .startfail d => startTaskFail s d
   | .stop id => stopTask s id
   | .delete id => stopTask s id
   | .write db rp pts => writePointsWith fp s db rp pts
